@@ -112,8 +112,27 @@ fn f_b2i<'a>(args: FunctionArgs<'_, 'a>) -> Option<LhsValue<'a>> {
     }
 }
 
-pub const SIMPLE_NAMES: [&str; 10] =
-    ["echo", "lower", "len", "first", "opt2", "dropempty", "alen", "addlit", "b2i", "blen"];
+/// `len2(x, extra = "")`: Bytes -> Int with a second (optional, field-or-literal) argument:
+/// the only harness function whose return type differs from its mapped element type AND that
+/// takes extra arguments (so `len2(xs[*], lower(y))` takes the memoised map-each route and an
+/// absent `xs` must still be tagged `Array(Int)`).
+fn f_len2<'a>(args: FunctionArgs<'_, 'a>) -> Option<LhsValue<'a>> {
+    let a = match args.next().expect("len2 arg 0") {
+        Ok(LhsValue::Bytes(b)) => b.len() as i64,
+        Ok(_) => panic!("len2: arg 0"),
+        Err(_) => return None,
+    };
+    let b = match args.next().expect("len2 arg 1") {
+        Ok(LhsValue::Bytes(b)) => b.len() as i64,
+        Ok(_) => panic!("len2: arg 1"),
+        Err(_) => -1,
+    };
+    assert!(args.next().is_none(), "len2: too many args");
+    Some(LhsValue::Int(a + b))
+}
+
+pub const SIMPLE_NAMES: [&str; 11] =
+    ["echo", "lower", "len", "first", "opt2", "dropempty", "alen", "addlit", "b2i", "blen", "len2"];
 
 pub fn simple(fname: &str) -> Option<SimpleFunctionDefinition> {
     let bytes_arr = Type::Array(Type::Bytes.into());
@@ -146,6 +165,12 @@ pub fn simple(fname: &str) -> Option<SimpleFunctionDefinition> {
             ),
             "b2i" => (vec![p(K::Field, Type::Bool)], vec![], Type::Int, f_b2i),
             "blen" => (vec![p(K::Field, bool_arr)], vec![], Type::Int, f_alen),
+            "len2" => (
+                vec![p(K::Field, Type::Bytes)],
+                vec![SimpleFunctionOptParam { arg_kind: K::Both, default_value: LhsValue::Bytes(Vec::new().into()) }],
+                Type::Int,
+                f_len2,
+            ),
             _ => return None,
         };
     Some(SimpleFunctionDefinition {
